@@ -64,7 +64,9 @@ Inductive label :=
 | LFrame (f : cframe)      (* the read loop reads one client frame and dispatches it *)
 | LEmit (n : nat)          (* the source of operation n delivers an event *)
 | LSrcEnd (n : nat)        (* the source of operation n closes its event channel *)
-| LEnd (e : ending).       (* the connection ends *)
+| LEnd (e : ending)        (* the connection ends *)
+| LTick.                   (* one keep-alive period of the write loop's ticker elapses (15 s) and the
+                              write loop, still in its main loop, takes the tick *)
 
 (** Server frames, reduced to what the property talks about.  Result frames carry (as a ghost in
     the model, as an echo of a resolver argument in the harness) the operation they answer. *)
@@ -92,7 +94,9 @@ Inductive ev :=
 | VBeginClose (code : Z)             (* the body of beginClosingOnce ran *)
 | VGone                              (* read loop and write loop have ended: nothing is read or
                                         written any more (finishClosing is past its two waits) *)
-| VDeregister.                       (* HandleClose removed the connection from the registry *)
+| VDeregister                        (* HandleClose removed the connection from the registry *)
+| VTick.                             (* a keep-alive period elapsed; the keep-alive the write loop writes
+                                        for it (ka / pong, directly to the socket) follows as a [VSend] *)
 
 (** decidable equalities (boolean, executable) *)
 Definition dclass_eqb (a b : dclass) : bool :=
